@@ -12,8 +12,8 @@ import (
 func init() {
 	register(Property{ID: "C43", Level: "proof", Run: runC43,
 		Technique: "static analysis: must-pass-through path conditions on hls.httpServer.onRequest, muxer.findSession and session.initialize (go/ssa), who-may rules on sessionsBySecret / cdnSession / handleRequest over the whole module",
-		Text: "Every call of (*muxer).handleRequest (the only way media playlists and segments leave the server) is in httpServer.onRequest and is dominated by one of: a session initialised successfully for this request; a non-nil findSession(ctx) result; isCDN with a non-nil getCDNSession(). getCDNSession is consulted only under isCDN. findSession returns a session only if the secret parses, is a key of sessionsBySecret and the client IP equals the session's IP, and returns exactly that map entry. Sessions enter sessionsBySecret / cdnSession only in muxer.addSession, which is called only from session.initialize after pathManager.AddReader succeeded (which authenticates unless CDN - C03); the muxer and the session are created for the same directory expression. muxerInstance.handleRequest is reached only through muxer.handleRequest. Obligations = handleRequest call sites x alternatives + writers.",
-		Note: "trusted: C03 (AddReader authenticates; isCDN definition is checked there), gin ClientIP, uuid.Parse; value identity by canonical description (the two session literals of onRequest are distinguished only by control flow)"})
+		Text:      "Every call of (*muxer).handleRequest (the only way media playlists and segments leave the server) is in httpServer.onRequest and is dominated by one of: a session initialised successfully for this request; a non-nil findSession(ctx) result; isCDN with a non-nil getCDNSession(). getCDNSession is consulted only under isCDN. findSession returns a session only if the secret parses, is a key of sessionsBySecret and the client IP equals the session's IP, and returns exactly that map entry. Sessions enter sessionsBySecret / cdnSession only in muxer.addSession, which is called only from session.initialize after pathManager.AddReader succeeded (which authenticates unless CDN - C03); the muxer and the session are created for the same directory expression. muxerInstance.handleRequest is reached only through muxer.handleRequest. Obligations = handleRequest call sites x alternatives + writers.",
+		Note:      "trusted: C03 (AddReader authenticates; isCDN definition is checked there), gin ClientIP, uuid.Parse; value identity by canonical description (the two session literals of onRequest are distinguished only by control flow)"})
 	addMutants(
 		Mutant{"C43", "ip-not-compared", "internal/servers/hls/muxer.go",
 			"	if ctx.ClientIP() != sx.ip {\n		return nil\n	}\n", "", "C43.find_session"},
